@@ -50,7 +50,7 @@ FILES = [
 # which checks can possibly see a change in a file (first = most likely to kill)
 CHECKS_FOR = {
     "edgegraph/structure/base.py": ["C02", "C03", "C01", "C12", "C08", "C19", "C10", "C14", "C13"],
-    "edgegraph/structure/vertex.py": ["C01", "C03", "C05", "C02", "C12", "C04", "C10", "C13"],
+    "edgegraph/structure/vertex.py": ["C05", "C01", "C03", "C02", "C12", "C04", "C10", "C13"],
     "edgegraph/structure/link.py": ["C01", "C03", "C05", "C12", "C10"],
     "edgegraph/structure/twoendedlink.py": ["C03", "C01", "C05", "C04", "C09", "C12", "C15"],
     "edgegraph/structure/directededge.py": ["C03", "C04", "C09", "C01", "C15", "C14"],
@@ -184,6 +184,28 @@ def mutate(src, k):
     return ast.unparse(tree) + "\n", ln, op, desc
 
 
+def context(tree, path):
+    """(name of the enclosing function, source of the enclosing statement) of a mutation point."""
+    node, fn, stmt = tree, None, None
+    for field, i in path:
+        node = getattr(node, field)
+        if i is not None:
+            node = node[i]
+        if isinstance(node, (ast.FunctionDef, ast.AsyncFunctionDef)):
+            fn = node.name
+        if isinstance(node, ast.stmt) and not isinstance(node, (ast.FunctionDef, ast.ClassDef, ast.If, ast.For, ast.While, ast.Try, ast.With)):
+            stmt = node
+    return fn, (ast.unparse(stmt) if stmt is not None else "")
+
+
+def stats_only(f, k):
+    """Cache-statistics bookkeeping (Vertex._CACHE_STATS counters, total_cache_stats()): no property speaks about it."""
+    tree = ast.parse(open(os.path.join(REPO, f)).read())
+    path = points(tree)[k][0]
+    fn, stmt = context(tree, path)
+    return fn == "total_cache_stats" or ("_CACHE_STATS" in stmt and "__qa_nb_cache" not in stmt)
+
+
 def all_mutants():
     out = []
     for f in FILES:
@@ -284,7 +306,8 @@ def cmd_checks(only=None):
             open(tgt, "w").write(new)
             killed_by, ran, lines = None, [], []
             t0 = time.time()
-            for c in CHECKS_FOR[m["file"]]:
+            so = stats_only(m["file"], m["k"])
+            for c in (["C05"] if so else CHECKS_FOR[m["file"]]):
                 env = dict(os.environ, VERIF_REPO=d, VERIF_NO_EVIDENCE="1")
                 rc, out = sh(f"./run.py {c} --tier quick", cwd=VERIF, env=env, timeout=1800)
                 ran.append(f"{c}:{rc}")
@@ -293,7 +316,7 @@ def cmd_checks(only=None):
                     lines = [l[:240] for l in out.splitlines() if l.startswith("  kind=")][:2]
                     break
             open(tgt, "w").write(orig)
-            rec = dict(file=m["file"], k=m["k"], line=m["line"], op=m["op"], desc=m["desc"], killed_by=killed_by, ran=ran, lines=lines, wall_s=round(time.time() - t0, 1), repo_head=head())
+            rec = dict(file=m["file"], k=m["k"], line=m["line"], op=m["op"], desc=m["desc"], killed_by=killed_by, ran=ran, lines=lines, stats_only=so, wall_s=round(time.time() - t0, 1), repo_head=head())
             with open(path, "a") as f:
                 f.write(json.dumps(rec) + "\n")
             print(m["file"], m["k"], m["line"], m["desc"][:50], "->", killed_by or "SURVIVED", ran, flush=True)
